@@ -2643,8 +2643,11 @@ class Huber(Functional):
             tmp = norm.ufuncs.square()
             tmp *= 1 / (2 * self.gamma)
 
-            index = norm.ufuncs.greater_equal(self.gamma)
-            tmp[index] = norm[index] - self.gamma / 2
+            # Index with arrays, elements as indices do not work in all
+            # spaces (e.g., with array weighting)
+            norm_arr = norm.asarray()
+            index = norm_arr >= self.gamma
+            tmp[index] = norm_arr[index] - self.gamma / 2
         else:
             tmp = norm
 
@@ -2729,14 +2732,22 @@ class Huber(Functional):
                 else:
                     norm = x.ufuncs.absolute()
 
-                grad = x / functional.gamma
+                # Index with arrays, elements as indices do not work in all
+                # spaces (e.g., with array weighting)
+                norm_arr = norm.asarray()
+                if functional.gamma > 0:
+                    grad = x / functional.gamma
+                    index = norm_arr >= functional.gamma
+                else:
+                    # Limit case, the (group) L1 norm: x / |x| where x != 0
+                    grad = self.range.zero()
+                    index = norm_arr > 0
 
-                index = norm.ufuncs.greater_equal(functional.gamma)
                 if isinstance(self.domain, ProductSpace):
                     for xi, gi in zip(x, grad):
-                        gi[index] = xi[index] / norm[index]
+                        gi[index] = xi.asarray()[index] / norm_arr[index]
                 else:
-                    grad[index] = x[index] / norm[index]
+                    grad[index] = x.asarray()[index] / norm_arr[index]
 
                 return grad
 
